@@ -240,6 +240,9 @@ Definition proxy_load (eva_load : list tok -> option (list tok)) (s : list tok) 
   | None => (false, t)
   | Some r => load r t
   end.
+(* evaluator_proxy::fast : return eva_.fast(prg);   -- the approximate fitness is neither looked up
+   nor stored: the cache is left alone.  [fnow] is what the wrapped fast() returns now. *)
+Definition proxy_fast (t : table) (sg : key) (fnow : fitness) : fitness * table := (fnow, t).
 (* evaluator_proxy::clear : cache_.clear(); *)
 Definition proxy_clear (t : table) : table := clear t.
 
